@@ -159,11 +159,13 @@ Definition nsf_init (est0 : bool) : nsf_st := nsf_mk (ns_init est0) false.
 Definition nsb_firsts (o : list ns_out) : list ns_msg :=
   flat_map (fun x => match x with NsTx m => [m] | NsErrW m => [m] | _ => [] end) o.
 
-Definition nsb_step (c : ns_cfg) (infl : list ns_msg) (e : nsf_ev) (o : list ns_out)
-  : option (list ns_msg) :=
+Record nsb_st := nsb_mk { nsb_open : bool; nsb_est : bool; nsb_infl : list ns_msg }.
+
+Definition nsb_step (c : ns_cfg) (st : nsb_st) (e : nsf_ev) (o : list ns_out) : option nsb_st :=
   match e with
-  | NsfErr => Some infl
+  | NsfErr => Some st
   | NsfEv e =>
+    let infl := nsb_infl st in
     let infl0 := fold_left (fun l mid => ns_rm_mid mid l) (ns_gaveup o) infl in
     let infl1 :=
       match e with
@@ -172,22 +174,41 @@ Definition nsb_step (c : ns_cfg) (infl : list ns_msg) (e : nsf_ev) (o : list ns_
       | NsFail r => if r =? ns_ICMP then infl0 else []
       | _ => infl0
       end in
+    let refused := existsb (fun x => match x with NsRef => true | _ => false end) o in
     (* first transmissions (also attempted ones) of CONs that were accepted; an id that is
        already counted is a retransmission *)
     let news := filter (fun m => ns_con m && negb (existsb (fun y => ns_mid y =? ns_mid m) infl1))
-                       (if existsb (fun x => match x with NsRef => true | _ => false end) o
-                        then [] else nsb_firsts o) in
+                       (if refused then [] else nsb_firsts o) in
     let infl2 := infl1 ++ news in
-    if Z.of_nat (length infl2) <=? ns_nstart c then Some infl2 else None
+    (* a slot that stays taken by nothing: a CON that is accepted and held on an open, established
+       session although no CON at all is in flight (this holds under failing writes too: a write
+       that failed in coap_send gave COAP_INVALID_MID and must not keep a slot) *)
+    let stuck :=
+      match e with
+      | NsSubmit x =>
+        ns_con x && negb refused && ns_accepted o && nsb_open st && nsb_est st &&
+        (1 <=? ns_nstart c) &&
+        match nsb_firsts o, infl1 with [], [] => true | _, _ => false end
+      | _ => false
+      end in
+    let open' := match e with
+                 | NsFail r => if r =? ns_ICMP then nsb_open st else nsb_open st && negb (ns_client c)
+                 | _ => nsb_open st end in
+    let est' := match e with
+                | NsUp => true
+                | NsFail r => if r =? ns_ICMP then nsb_est st else ns_udp c
+                | _ => nsb_est st end in
+    if stuck then None
+    else if Z.of_nat (length infl2) <=? ns_nstart c then Some (nsb_mk open' est' infl2) else None
   end.
 
-Fixpoint nsb_run (c : ns_cfg) (infl : list ns_msg) (t : list (nsf_ev * list ns_out)) (i : Z)
-  : option Z :=        (* index of the first event at which the bound is exceeded *)
+(* index of the first event at which the bound is exceeded (or a slot is stuck) *)
+Fixpoint nsb_run (c : ns_cfg) (st : nsb_st) (t : list (nsf_ev * list ns_out)) (i : Z) : option Z :=
   match t with
   | [] => None
   | (e, o) :: r =>
-    match nsb_step c infl e o with
+    match nsb_step c st e o with
     | None => Some i
-    | Some infl' => nsb_run c infl' r (i + 1)
+    | Some st' => nsb_run c st' r (i + 1)
     end
   end.
